@@ -1746,3 +1746,11 @@ SPECS["C05"]["level_text"] += (' Props/C05S (track rdrworld): StreamChunker chun
     'range and the byte-level record = the FLATTENED IOVEC, None, the same I/O error) and leave the reader in the same position; proof: the iovec satisfies '
     'the single-iovec invariant IovInv and every detached slice is held w.r.t. it (Geo), decode_anchored of a chunk appends exactly the decoder\'s emits '
     '(decFeed_pushed) and leaves the chunker\'s buffered tail and its bytes alone (FrameOut), pump touches no detached slice but its own (pumpW_only).')
+SPECS["C05"]["theorems"] += [
+    "Woodpile.Props.C05B.push_anchor_default_hinv",
+    "Woodpile.Props.C05B.dpath_exposed_live",
+]
+SPECS["C05"]["level_text"] += (' After track rdrworld landed: push_anchor_default_hinv (a chunk-less push_anchor preserves HInv = WorldInv without the head condition + '
+    'ArenaInv on ANY anchor deque, also an empty one) and dpath_exposed_live (guard / exposed_live / below_bump after any chain of the one-iovec micro-steps of '
+    'Proofs/AnchGuard.HStep and chunk-less push_anchors, from any XReach world; FULL for that vocabulary). Still without theorem: clone / take / arena hand-off '
+    'after an empty-deque push_anchor.')
